@@ -522,20 +522,18 @@ func c07Readers(c *Ctx, pcType *types.TypeName) {
 			}
 			n++
 			key := c.short(top.String()) + " › automatic refresh"
-			if !isInGoLit(cs.Fn) {
+			points := c.goPoints(cs.Fn)
+			if len(points) == 0 {
 				c.Bad("C07.v-auto-refresh-async", key, cs.In.Pos(), "read path runs Refresh synchronously")
 				continue
 			}
-			// find the go statement and its guard
-			ok := false
-			instrsDeep(top, func(g *ssa.Function, in ssa.Instruction) {
-				if goi, isGo := in.(*ssa.Go); isGo {
-					if _, g1 := c.Guarded(goi, Call("atomic.Bool).CompareAndSwap", Field("needsRefresh", Any()), Const("true"), Const("false")), true); g1 {
-						ok = true
-					}
+			ok := true
+			for _, goi := range points {
+				if _, g1 := c.Guarded(goi, Call("atomic.Bool).CompareAndSwap", Field("needsRefresh", Any()), Const("true"), Const("false")), true); !g1 {
+					ok = false
 				}
-			})
-			c.Check(ok, "C07.v-auto-refresh-async", key, cs.In.Pos(), "refresh goroutine started only when needsRefresh.CompareAndSwap(true,false) succeeded", "refresh goroutine is not guarded by the compare-and-swap: every read may start one")
+			}
+			c.Check(ok, "C07.v-auto-refresh-async", key, cs.In.Pos(), "refresh runs in a goroutine started only when needsRefresh.CompareAndSwap(true,false) succeeded", "refresh goroutine is not guarded by the compare-and-swap: every read may start one")
 		}
 	}
 	c.Floor("C07.v-auto-refresh-async", 1)
